@@ -1,5 +1,8 @@
 """C01 - Exposure limits bound every order that reaches the exchange."""
-from ..common import SubCheck
+from hypothesis import strategies as st
+
+from .. import world
+from ..common import SubCheck, run_given
 from ..machine import SimWorld, replay_trace
 from . import _machines as M
 
@@ -50,9 +53,84 @@ def sub_discipline(col, budget, seed, tier, shard, nshards):
           rule_weights={"place_existing": 0, "squeeze": 1})
 
 
+@st.composite
+def headroom_trace(draw):
+    """directed shape (discipline run, one strategy): an order uses most of max_selection_exposure, part of it is
+    cancelled (or it is reduced by a replace / voided by a removal elsewhere), the freed headroom is used by further
+    orders, then the market turns in-play and the starting price is reconciled (orders with MARKET_ON_CLOSE
+    persistence are converted), suspends and closes with the selection winning or losing.  Whatever was cancelled
+    must stay cancelled: the worst case at every step and the realised loss stay within the limit."""
+    nr = draw(st.integers(2, 3))
+    spec = world.default_market(0, nr)
+    spec["market_type"] = draw(st.sampled_from(["WIN", "WIN", "PLACE"]))
+    if spec["market_type"] == "PLACE":
+        spec["number_of_winners"] = 2 if nr > 2 else 1
+    spec["bsp_market"] = draw(st.integers(0, 5)) > 0
+    spec["persistence_enabled"] = True
+    lim = draw(st.sampled_from([25, 40, 100]))
+    strat = {"name": "S0", "client": 0, "max_order_exposure": draw(st.sampled_from([None, lim, 100])),
+             "max_selection_exposure": lim, "max_market_exposure": draw(st.sampled_from([None, None, lim, 1000])),
+             "max_trade_count": 10**6, "max_live_trade_count": 10**6}
+    cfg_ = {"market": spec, "strategies": [strat], "clients": [{"min_bet_validation": False, "tx_limit": 5000, "bpe": True}],
+            "config": {}, "no_force": True, "discipline": True}
+    if draw(st.integers(0, 3)) == 0:
+        cfg_["config"] = {"simulated_strategy_isolation": False}
+    prices = world.ladder_prices(spec)
+    mid = draw(st.integers(45, 180))
+    r = draw(st.integers(0, nr - 1))
+    side = draw(st.sampled_from(["LAY", "LAY", "BACK"]))
+    # a lay rests below the market, a back above it
+    tick = mid - draw(st.integers(8, 30)) if side == "LAY" else mid + draw(st.integers(8, 30))
+    price = prices[tick]
+    pers = draw(st.sampled_from(["MARKET_ON_CLOSE", "MARKET_ON_CLOSE", "PERSIST", "LAPSE"]))
+
+    def sized(frac):
+        risk = lim * frac
+        return max(0.02, round(risk / (price - 1), 2)) if side == "LAY" else max(0.02, round(risk, 2))
+
+    def place(frac, pers_=None):
+        return {"_": "req", "op": "place", "si": 0, "r": r, "side": side, "type": "LIMIT", "tick": tick, "size": sized(frac),
+                "pers": pers_ or pers, "trade": "new"}
+
+    tick_ = {"_": "book", "dt": 1000, "rc": []}
+    trace = [{"cfg": cfg_},
+             {"_": "book", "dt": 1000, "rc": [{"r": r, "atb": [[mid - 2, 50.0]], "atl": [[mid + 2, 50.0]]}]},
+             place(draw(st.sampled_from([0.9, 0.95, 0.6]))), tick_]
+    for _ in range(draw(st.integers(1, 3))):
+        k = draw(st.integers(0, 5))
+        if k <= 2:
+            trace += [{"_": "req", "op": "cancel", "red": draw(st.sampled_from([0.3, 0.5, 0.8])), "si": 0, "o": draw(st.sampled_from([0, -1])), "pool": "any"}, tick_]
+        elif k == 3:
+            trace += [{"_": "req", "op": "cancel", "red": None, "si": 0, "o": -1, "pool": "any"}, tick_]
+        elif k == 4:
+            # part of the resting order trades
+            trace += [{"_": "book", "dt": 1000, "rc": [{"r": r, "trd": [[tick, round(sized(0.9) * draw(st.sampled_from([0.4, 1.0])), 2)]]}]}]
+        trace += [place(draw(st.sampled_from([0.3, 0.5, 0.8])), draw(st.sampled_from([None, None, "LAPSE"]))), tick_]
+    sp_tick = tick + draw(st.sampled_from([0, 0, -6, 6]))
+    bsp = [round(prices[mid], 2)] * nr
+    bsp[r] = round(prices[sp_tick], 2)
+    trace += [{"_": "inplay", "dt": 1000, "bet_delay": 1, "status": "OPEN", "bump": True, "bsp": bsp}, tick_,
+              {"_": "suspend", "dt": 1000, "bump": True}]
+    results = ["LOSER"] * nr
+    results[r] = draw(st.sampled_from(["WINNER", "LOSER"]))
+    if "WINNER" not in results:
+        results[(r + 1) % nr] = "WINNER"
+    trace.append({"_": "close", "dt": 1000, "results": results})
+    return trace
+
+
+def check_headroom(trace):
+    return replay_trace(SimWorld, CHECKS, trace)
+
+
+def sub_headroom(col, budget, seed, tier, shard, nshards):
+    run_given(col, headroom_trace(), check_headroom, budget, seed, tier, "headroom")
+
+
 def subchecks(tier):
     q = tier == "quick"
-    return [SubCheck("decision", sub_decision, 900 if q else 30000), SubCheck("discipline", sub_discipline, 900 if q else 30000)]
+    return [SubCheck("decision", sub_decision, 900 if q else 30000), SubCheck("discipline", sub_discipline, 900 if q else 30000),
+            SubCheck("headroom", sub_headroom, 400 if q else 20000)]
 
 
 def replay(case, sub=None):
